@@ -1,23 +1,34 @@
 #!/bin/bash
-# seedmatrix.sh [tier]  -- runs every seeded change against its property's check (and the extra checks listed in
-# seeded/also.json) and records the outcome in seeded/<id>/meta.json
-TIER=${1:-quick}
+# seedmatrix.sh [tier] [jobs]  -- runs every seeded change against its property's check (and the extra checks listed in
+# seeded/also.json) and records the outcome in seeded/<id>/meta.json.  The seeds are spread over <jobs> scratch worktrees
+# of /repo (outside /repo and /verif), each checked through VERIF_REPO; /repo itself is not touched.
+TIER=${1:-quick}; JOBS=${2:-4}
 cd /verif
-for d in seeded/C*-*; do
-  s=$(basename $d); p=${s%-*}
-  checks="$p $(python3 -c "import json;print(' '.join(json.load(open('seeded/also.json')).get('$s',[])))")"
-  res=()
-  for c in $checks; do
-    out=$(SKIP_CONFIRM=${SKIP_CONFIRM:-1} lib/seedtest.sh $d $c $TIER 2>&1 | grep RESULT)
-    case "$out" in *DETECTED*) res+=("$c:detected");; *MISSED*) res+=("$c:missed");; *) res+=("$c:${out##* }");; esac
-  done
-  python3 - "$d" "$TIER" "${res[@]}" <<'PY'
-import json,sys,subprocess
-d,tier=sys.argv[1],sys.argv[2]
+HEAD=$(git -C /repo rev-parse --short HEAD)
+TMP=$(mktemp -d /tmp/seedmatrix.XXXXXX)
+ls -d seeded/C*-* > $TMP/all
+# the checks run from a snapshot of /verif, so that work on the models can go on while the matrix runs
+rsync -a --exclude .git --exclude replays --exclude seeded /verif/ $TMP/verif/
+for j in $(seq 1 $JOBS); do
+  git -C /repo worktree add -q --detach $TMP/wt$j HEAD || exit 2
+  ( awk -v j=$j -v n=$JOBS 'NR % n == j % n' $TMP/all | while read d; do
+      s=$(basename $d); p=${s%-*}
+      checks="$p $(python3 -c "import json;print(' '.join(json.load(open('seeded/also.json')).get('$s',[])))")"
+      res=()
+      for c in $checks; do
+        out=$(VERIF_DIR=$TMP/verif VERIF_REPO=$TMP/wt$j SEED_LOG=$TMP/log$j SKIP_CONFIRM=${SKIP_CONFIRM:-1} lib/seedtest.sh $d $c $TIER 2>&1 | grep RESULT)
+        case "$out" in *DETECTED*) res+=("$c:detected");; *MISSED*) res+=("$c:missed");; *) res+=("$c:${out##* }");; esac
+      done
+      python3 - "$d" "$TIER" "$HEAD" "${res[@]}" <<'PY'
+import json,sys
+d,tier,head=sys.argv[1],sys.argv[2],sys.argv[3]
 m=json.load(open(d+'/meta.json'))
-head=subprocess.run(['git','-C','/repo','rev-parse','--short','HEAD'],capture_output=True,text=True).stdout.strip()
-m['results']=[{'check':r.split(':')[0],'tier':tier,'outcome':r.split(':',1)[1],'repo_head':head} for r in sys.argv[3:]]
+m['results']=[{'check':r.split(':')[0],'tier':tier,'outcome':r.split(':',1)[1],'repo_head':head} for r in sys.argv[4:]]
 json.dump(m,open(d+'/meta.json','w'),indent=1)
-print(d, m['results'])
+print(d, [(r['check'],r['outcome']) for r in m['results']])
 PY
+    done ) &
 done
+wait
+for j in $(seq 1 $JOBS); do git -C /repo worktree remove --force $TMP/wt$j; done
+rm -rf $TMP
